@@ -69,8 +69,8 @@ type Model struct {
 	// Concurrent: other tasks may act between a writer's Write and its Size call.
 	Concurrent bool
 	Repos      map[string]*MRepo
-	Named    map[string]bool // every repository name a write was ever attempted on
-	Uploads  map[int]*MUpload
+	Named      map[string]bool // every repository name a write was ever attempted on
+	Uploads    map[int]*MUpload
 }
 
 func NewModel(immutableTags bool) *Model {
